@@ -258,6 +258,27 @@ func (g *legacyGen) expr(depth int, kind byte) *lx {
 		if (op == "+" || op == "-") && r.Chance(15) {
 			return &lx{kind: "bin", text: op, kids: []*lx{g.lit('d'), g.expr(depth-1, 'n')}}
 		}
+		if (op == "+" || op == "-") && r.Chance(30) {
+			// both operands look like numbers to the migration's type inference (an integer literal, or text that starts with a
+			// call of a numeric function) - including SUM/CONCATENATE whose first parameter is such a call
+			numeric := func() *lx {
+				fn := &lx{kind: "call", text: Pick(r, []string{"abs", "max", "min", "mod", "round"}), kids: []*lx{g.lit('n'), g.lit('n')}}
+				if fn.text == "abs" || fn.text == "round" {
+					fn.kids = fn.kids[:1]
+				}
+				switch r.Intn(4) {
+				case 0:
+					return &lx{kind: "dec", text: Pick(r, []string{"10", "20", "3"})}
+				case 1:
+					return fn
+				case 2:
+					return &lx{kind: "call", text: "sum", kids: []*lx{fn, g.lit('n')}}
+				default:
+					return &lx{kind: "call", text: "concatenate", kids: []*lx{fn, g.lit('n')}}
+				}
+			}
+			return &lx{kind: "bin", text: op, kids: []*lx{numeric(), numeric()}}
+		}
 		return &lx{kind: "bin", text: op, kids: []*lx{g.expr(depth-1, k), g.expr(depth-1, k)}}
 	case 3:
 		return &lx{kind: "neg", kids: []*lx{g.expr(depth-1, 'n')}}
